@@ -66,6 +66,7 @@ type Ctx struct {
 	usedGhost   bool
 	tainted     map[string]bool
 	guardType   string
+	skipRun     bool // the harness declared this case combination redundant (verif.SkipRun)
 	shadow      bool // contracts in use mode also run the real function and record (havoc variable, real value) pairs
 	fresh2      int
 	shadowPairs [][2]*Term
@@ -392,6 +393,8 @@ func (c *Ctx) callFunction(fn *ssa.Function, args []Value, bind []Value, st *Sta
 	}
 	if fn.Pkg != nil && fn.Pkg.Pkg.Path() == verifPkgPath {
 		switch fn.Name() {
+		case "Native":
+			return []Outcome{{st, FalseT}}
 		case "Real":
 			cf := c.topContract()
 			if c.shadow && cf != nil && !cf.prove {
@@ -924,7 +927,13 @@ func (c *Ctx) runBlock(fr *frame, p *Path, blk *ssa.BasicBlock, start int) {
 			}
 			c.checkBranchLeak(st, cond, in)
 			tFeas, fFeas := true, true
-			if c.feasAfter > 0 && c.inLoopBeyond(fr, blk, c.feasAfter) {
+			switch st.pc.implies(cond) {
+			case 1:
+				fFeas = false
+			case -1:
+				tFeas = false
+			}
+			if tFeas && fFeas && c.feasAfter > 0 && c.inLoopBeyond(fr, blk, c.feasAfter) {
 				tFeas = c.feasible(st, cond)
 				fFeas = c.feasible(st, Not(cond))
 			}
